@@ -20,9 +20,20 @@ EXTENDS Repo
 
 CONSTANTS GCModes      \* e.g. {"default", "full", "shallow", "arch0", "full-arch0"}
 
-VARIABLE ghist         \* sequence of strings, Len(ghist) = Len(hist): "" or the mode of a collection inside the step
+VARIABLES ghist,       \* sequence of strings, Len(ghist) = Len(hist): "" or the mode of a collection inside the step
+          dead         \* commits that were unreachable when a collection ran: they may be gone (or not: the old generation
+                       \* keeps what it has) -- the histories never name them again
 
-gvars == <<vars, ghist>>
+gvars == <<vars, ghist, dead>>
+
+\* what a collection must keep: the history of every branch, tag, stash and of a commit being merged / picked / reverted
+Reach == UNION {AncSet(head[b]) : b \in {x \in Branches : Exists(x)}}
+         \cup UNION {AncSet(tags[n]) : n \in {x \in TagNames : tags[x] # 0}}
+         \cup UNION {AncSet(stashes[i].head) : i \in 1..Len(stashes)}
+         \cup UNION {AncSet(ws[b].mcommit) : b \in {x \in Branches : Exists(x) /\ ws[x].mcommit # 0}}
+\* the commits a step names
+Named(st) == IF st.a \in {"Branch", "Tag", "ResetHard", "ResetSoft", "ResetMixed", "CherryPick", "Revert"} THEN {st.args.c}
+             ELSE IF st.a = "Rebase" THEN {st.args.up} ELSE {}
 
 NoteFor(h, m) == IF Len(h) > 0 /\ h[Len(h)].a = "Rebase" THEN m ELSE ""
 Track(m) == ghist' = IF RecordHist THEN Append(ghist, NoteFor(hist', m)) ELSE ghist
@@ -40,17 +51,20 @@ GC(s, mode) ==
     /\ Unchanged
     /\ Rec(Step("GC", s, [mode |-> mode], "ok", NoQ))
     /\ Track("")
+    /\ dead' = IF mode = "shallow" THEN dead ELSE dead \cup (Cids \ Reach)
 Reopen(s) ==
     /\ On("Reopen") /\ (RecordHist => MixG(2) % 4 = 0)
     /\ Unchanged
     /\ Rec(Step("Reopen", s, <<>>, "ok", NoQ))
-    /\ Track("")
+    /\ Track("") /\ UNCHANGED dead
 
 MidChoice == IF RecordHist THEN PickG(GCModes \cup {""}, 1) ELSE {""}
 
-InitG == Init /\ ghist = <<>>
+InitG == Init /\ ghist = <<>> /\ dead = {}
 NextG ==
-    \/ (Next /\ \E m \in MidChoice : Track(m))
+    \/ (Next /\ Named(last') \cap dead = {} /\ (\E m \in MidChoice : Track(m))
+        \* a collection inside the rebase sees the rebase branch and its state, but commits that only the OLD head reached ...
+        /\ dead' = dead)
     \/ \E s \in PickG(Sessions, 3) : \E mode \in PickG(GCModes, 4) : GC(s, mode)
     \/ \E s \in PickG(Sessions, 5) : Reopen(s)
 SpecG == InitG /\ [][NextG]_gvars
@@ -74,5 +88,5 @@ Populates ==
      AddColumn   |-> {"table.schema (second version)"}]
 
 EmitG == Len(hist) < D \/ PrintT(ToJson([steps |-> hist, mid |-> ghist]))
-viewG == view
+viewG == <<view, dead>>
 =============================================================================
